@@ -1004,7 +1004,7 @@ pub fn run(report: &mut Report, replay: Option<&Value>) {
     }
     super::replay_corpus(report, &|r, v| replay_one(r, &env, v));
 
-    let total: usize = if report.thorough() { 300_000 } else { 20_000 };
+    let total: usize = if report.thorough() { 300_000 } else { 80_000 };
     let batch = 5_000usize;
     let threads = std::thread::available_parallelism().map(|n| n.get()).unwrap_or(4).clamp(1, 8);
     let mut done = 0usize;
